@@ -294,6 +294,7 @@ from .rules import version_rules  # noqa: E402
 def c17(ctx, rep):
     _r(output_rules.rule_outputs_complete, ctx, rep)
     _r(output_rules.rule_main_print, ctx, rep)
+    _r(output_rules.rule_main_selection, ctx, rep)
     _r(output_rules.rule_context_annotations, ctx, rep)
     _r(cfg_rules.rule_cfg_shapes, ctx, rep)
     _r(cfg_rules.rule_no_mutation_under_iteration, ctx, rep)
@@ -314,6 +315,7 @@ def c18(ctx, rep):
     _r(output_rules.rule_context_annotations, ctx, rep)
     _r(output_rules.rule_json_envelope, ctx, rep)
     _r(output_rules.rule_main_detect, ctx, rep)
+    _r(output_rules.rule_num_ranges, ctx, rep)
     _r(detectors.rule_renderings, ctx, rep)
     _r(cfg_rules.rule_call_graph, ctx, rep)
     _r(effects.rule_block_provenance, ctx, rep)
